@@ -768,7 +768,7 @@ def twin_cases():
             "use_log": st.booleans(),
             "use_power": st.booleans(),
             "kaldi_shift": st.booleans(),
-            "reuse": st.sampled_from([False, False, True]),
+            "reuse": st.booleans(),
             "signal": signal_specs(st.one_of(st.integers(200, 700), st.integers(100, 400), st.integers(0, 700), st.integers(0, 40))),
         }
     )
